@@ -27,8 +27,9 @@ TECHNIQUE = (
     "outer part names several sessions at once, followed or preceded by elements that give single sessions further ids; what the "
     "scanners then leave out is judged end-to-end against the map the expression denotes.  ECU-side faults put in front of the model "
     "(faulty_ecu): a session in the middle of the requested list whose DiagnosticSessionControl request is never answered or gets a "
-    "reply that is no answer to it (incomplete negative response / response naming another service) while later sessions of the list "
-    "can be entered; service ids whose shorter probe lengths get such a reply while the longer ones are answered by the model; "
+    "reply that is no answer to it (incomplete negative response / response naming another service) or is answered with "
+    "requestCorrectlyReceived-ResponsePending for as long as the tester goes on reading (pending_chain_ecu: replies back-to-back or up to "
+    "3 s apart on the virtual clock, the change is never completed) while later sessions of the list can be entered; service ids whose shorter probe lengths get such a reply while the longer ones are answered by the model; "
     "identifiers of the scanned range that are never answered (all retransmissions) or get such a reply - the later sessions, the "
     "longer probe lengths and the identifiers after them must still be requested and reported.  "
     "A share of the service scans runs through the real run() (cyclic tester present on, as by default) against ECUs with an S3 session "
@@ -47,7 +48,7 @@ LEVEL_TEXT = (
     "scans for services 0x22/0x27/0x2E/0x31 over ranges of 64..1024 identifiers around 0x0000, 0x007F, 0xF186, 0xFFFF with payloads, "
     "check-session intervals, skip maps, skip-not-supported; ECU-side session drop-outs (with check-session) and lost replies "
     "(retries); ECUs whose session identifier 0xF186 is unreadable in some non-default sessions (service absent / requestOutOfRange / "
-    "no answer), with and without drop-outs; unanswered / garbled session changes in the middle of the session list, garbled replies "
+    "no answer), with and without drop-outs; unanswered / garbled / for ever responsePending session changes in the middle of the session list, garbled replies "
     "to the shorter probe lengths of a service, never-answered and garbled identifiers inside the scanned range; ECUs with an S3 session timer "
     "(response timeout + tester-present interval + 0.5 s < S3 < 4 response timeouts) x 2..4 non-default sessions per run x reset on/off x "
     "service ids silent for every probe length, scanned through run() with the cyclic tester present.  Held = on every generated scan each claim of the scanner agrees with the ECU-side log."
@@ -59,7 +60,7 @@ LEVEL_NOTE = (
 RULE = (
     "cases = (server seed, randomness parameters, behaviour switches, scanner kind, session list, skip map, option flags, identifier "
     "range, scanned service, payload, check-session interval, drop-out / loss positions, minimum-length map of the ECU, sessions without a readable "
-    "session identifier, faulty session changes, garbled probe lengths, never-answered / garbled identifiers, run mode, S3 time / response timeout / tester-present interval of S3 ECUs); non-trivial = the ECU answers at "
+    "session identifier, faulty session changes (incl. the interval of a never-ending responsePending chain), garbled probe lengths, never-answered / garbled identifiers, run mode, S3 time / response timeout / tester-present interval of S3 ECUs); non-trivial = the ECU answers at "
     "least one probe with something else than serviceNotSupported (services) resp. at least one identifier positively or the scan "
     "covers more than one session (identifiers); distinct = distinct case tuples; distinct_traces = distinct ECU-side logs"
 )
@@ -80,6 +81,10 @@ ASSUMPTIONS = [
     "incomplete negative response '7F sid' or a response naming another service, never for service id 0x3F (whose positive response id would be 0x7F); the "
     "scanned-service requests for 0xF186 are never made deaf or garbled; a faulty request has no effect on the ECU state; a session counts as entered only on a "
     "positive response that names it; the 'Abnormal replies' / 'Timeouts' tallies are outside the statement and not judged",
+    "an ECU that answers a session change with responsePending for ever sends the first such reply at once and a further one every fixed interval (0 .. 3 s, below the "
+    "5 s of P2*server) for as long as the tester reads; it never completes the change (state unchanged, the session does not count as entered and is legitimately not "
+    "scanned), and drops the job as soon as the next request arrives (no stale reply reaches a later request); how long the tester goes on reading is not judged, only that "
+    "it gives up at some point (more than 5000 replies read for one request = the scan does not terminate) and that the other sessions of the list are still scanned and reported",
     "ECUs with an S3 timer: the timer is restarted by every request that reaches the diagnostic server of the model (whatever the answer, TesterPresent included) and "
     "not by requests the ECU discards in front of it; S3 is always longer than response timeout + tester-present interval + 0.5 s (the longest one unanswered request can "
     "hold up the cyclic tester present of a scanner with these options) - shorter S3 times, which no tester with these options could serve, are not generated; these scans "
@@ -142,6 +147,10 @@ def required_reach(tier: str) -> dict[str, int]:
         # a session in the middle of the list whose change request is never answered / gets a reply that is no answer to it (the
         # client's set_session raises), and a later session of the list entered afterwards
         "services.session-change-raises.later-session-entered": 20, "#services.session-change-raises.later-session-entered.": 2,
+        # a session in the middle of the list whose change request is answered with responsePending for as long as the tester reads
+        # (never completed; replies back-to-back / spaced out), sessions scanned before it and a later session entered after it
+        "services.session-change-pending-for-ever.later-session-entered": 8, "#services.session-change-pending-for-ever.later-session-entered.": 2,
+        "services.session-change-pending-for-ever.earlier-session-scanned": 8,
         # service ids whose shorter probe lengths get a reply that is no answer of that service (incomplete / names another service)
         # while a longer probe length is answered meaningfully
         "services.sid-with-garbled-probe": 200, "services.found-after-garbled": 60, "#services.found-after-garbled.": 2,
@@ -591,6 +600,8 @@ def faulty_ecu(case: dict[str, Any], srv: Any, st: Any) -> Any:
         q = bytes(pdu)
         if dsc and len(q) == 2 and q[0] == 0x10 and (q[1] & 0x7F) in dsc:
             kind = dsc[q[1] & 0x7F]
+            if kind == "pending":
+                return PENDING_DSC, 0.0  # the first of a chain of such replies that never ends (pending_chain_ecu)
             return (None if kind == "silent" else garbled_reply(0x10, kind)), 0.0
         if garble and len(q) >= 2 and not any(q[1:]):
             g = garble.get((srv.state.session, q[0]))
@@ -606,6 +617,56 @@ def faulty_ecu(case: dict[str, Any], srv: Any, st: Any) -> Any:
 
     st.handle_request = handle_request
     return st
+
+
+PENDING_DSC = b"\x7f\x10\x78"  # negative response of DiagnosticSessionControl: requestCorrectlyReceived-ResponsePending
+PENDING_INTERVALS = (0.0, 0.01, 0.2, 0.45, 1.2, 3.0)  # seconds between two responsePending replies of one chain
+PENDING_CAP = 5000  # responsePending replies of ONE chain handed to the client: it never gives up on the request
+
+
+def pending_chain_ecu(case: dict[str, Any], tr: Any) -> Any:
+    """ECU that answers DiagnosticSessionControl for the sessions with dsc_fault 'pending' with requestCorrectlyReceived-
+    ResponsePending for ever: the first such reply comes at once (faulty_ecu), a further one every `pending_interval` seconds of the
+    (virtual) clock for as long as the tester goes on reading; the session change is never completed, the ECU state is unchanged.
+    The next request of the tester ends the chain (the ECU turns to the new request); every other request is handled as before.
+    tr.pending_sent = per chain the number of responsePending replies the tester was handed."""
+    sessions = {int(k) for k, v in (case.get("dsc_fault") or {}).items() if v == "pending"}
+    tr.pending_sent = []
+    if not sessions:
+        return tr
+    import asyncio
+
+    from vf import ecu_models as em
+
+    interval = float(case.get("pending_interval") or 0.0)
+    nxt: list[float | None] = [None]
+    inner_write, inner_read = tr.write, tr.read
+
+    async def write(data: bytes, timeout: float | None = None, tags: list[str] | None = None) -> int:
+        nxt[0] = None
+        n = await inner_write(data, timeout, tags)
+        q = bytes(data)
+        if len(q) == 2 and q[0] == 0x10 and (q[1] & 0x7F) in sessions:
+            nxt[0] = asyncio.get_running_loop().time() + interval
+            tr.pending_sent.append(1)
+        return n
+
+    async def read(timeout: float | None = None, tags: list[str] | None = None) -> bytes:
+        if tr.queue or nxt[0] is None:
+            return await inner_read(timeout, tags)
+        wait = max(0.0, nxt[0] - asyncio.get_running_loop().time())
+        if timeout is not None and wait > timeout:
+            await asyncio.sleep(timeout)
+            raise TimeoutError("no reply from the ECU model")
+        await asyncio.sleep(wait)
+        nxt[0] += interval
+        tr.pending_sent[-1] += 1
+        if tr.pending_sent[-1] > PENDING_CAP:
+            raise em.BudgetExceeded(f"{PENDING_CAP} responsePending replies to one request read")
+        return PENDING_DSC
+
+    tr.write, tr.read = write, read
+    return tr
 
 
 def gen_server_case(rng: Any, need: list[int] | None = None, silence_ok: bool = True) -> dict[str, Any]:
@@ -666,6 +727,8 @@ def gen_services_case(rng: Any) -> dict[str, Any]:
     if rng.random() < 0.12 and (plan := gen_dsc_fault(rng, srv)) is not None:
         sessions, case["dsc_fault"] = plan
         sessions_opt = list(sessions)
+        if "pending" in case["dsc_fault"].values():
+            case["pending_interval"] = rng.choice(PENDING_INTERVALS)
     skip: dict[int, list[int] | None] = {}
     if rng.random() < 0.5:
         cand = sorted(set(sessions) | set(model_of(srv)))
@@ -716,7 +779,7 @@ def gen_dsc_fault(rng: Any, srv: Any) -> tuple[list[int], dict[str, str]] | None
     used = {first, *later}
     pool = [x for x in sorted(trans) if x not in used] + [x for x in (rng.randint(2, 0x7E), rng.randint(2, 0x7E)) if x not in used]
     faulty = list(dict.fromkeys(rng.sample(pool, min(len(pool), rng.choice([1, 1, 2])))))
-    return [first] + faulty + later, {str(x): rng.choice(["silent", "silent", *GARBLE_KINDS]) for x in faulty}
+    return [first] + faulty + later, {str(x): rng.choice(["silent", "silent", "pending", "pending", *GARBLE_KINDS]) for x in faulty}
 
 
 def gen_garble(rng: Any, srv: Any, mute: dict[str, dict[str, int]]) -> dict[str, dict[str, list[Any]]]:
@@ -766,6 +829,7 @@ async def scan_services(case: dict[str, Any]) -> dict[str, Any]:
                           "drop_filter": lambda q: len(q) >= 2 and not any(q[1:]) and q[0] != 0x3E}
     tr = s3_transport_class()(srv, s3["timeout"], **kw) if s3 else em.InProcessTransport(srv, **kw)
     faulty_ecu(case, srv, tr.st)
+    pending_chain_ecu(case, tr)
     cap = em.fresh_capture()
     opts: dict[str, Any] = {"sessions": case["sessions_opt"], "check_session": case["check_session"], "scan_response_ids": case["scan_response_ids"],
                             "reset": case["reset"], "skip": list(case["skip_expr"]) if case["skip_expr"] else {}}
@@ -774,7 +838,8 @@ async def scan_services(case: dict[str, Any]) -> dict[str, Any]:
     sc = em.make_scanner(ServicesScanner, **opts)
     out = await em.run_scanner(sc, tr, case["full"])
     out.update({"result": list(sc.result), "log": tr.log, "lost": set(tr.lost), "records": list(cap.results), "problems": list(cap.problems),
-                "cfg_sessions": sc.config.sessions, "cfg_skip": sc.config.skip, "model": model_of(srv), "n_dropouts": tr.n_dropouts})
+                "cfg_sessions": sc.config.sessions, "cfg_skip": sc.config.skip, "model": model_of(srv), "n_dropouts": tr.n_dropouts,
+                "pending_sent": list(tr.pending_sent)})
     if s3:
         out.update({"times": tr.times, "processed": tr.processed, "s3_expired": list(tr.expired)})
     return out
@@ -813,13 +878,15 @@ def check_services(ctx: Any, case: dict[str, Any]) -> None:
     ident = ("services", case["server_seed"], sorted(case["rp"].items()), case["behavior_off"], case["sessions_opt"], case["check_session"],
              case["scan_response_ids"], case["reset"], case["skip_expr"], case["full"], case["dropouts"], sorted(mute_map(case).items()),
              sorted((case.get("session_read") or {}).items()), sorted((case.get("dsc_fault") or {}).items()), repr(sorted((case.get("garble") or {}).items())),
-             repr(sorted((case.get("s3") or {}).items())))
+             repr(sorted((case.get("s3") or {}).items())), case.get("pending_interval"))
     w: dict[str, Any] = {k: case[k] for k in ("kind", "server_seed", "rp", "behavior_off", "sessions_opt", "sessions", "check_session", "scan_response_ids",
                                             "reset", "skip", "skip_expr", "full", "dropouts")}
     w["mute"] = case.get("mute") or {}
     w["session_read"] = case.get("session_read") or {}
     w["dsc_fault"] = case.get("dsc_fault") or {}
     w["garble"] = case.get("garble") or {}
+    if case.get("pending_interval") is not None:
+        w["pending_interval"] = case["pending_interval"]
     s3 = case.get("s3") or None
     if s3:
         w["s3"] = s3
@@ -844,6 +911,8 @@ def check_services(ctx: Any, case: dict[str, Any]) -> None:
     w["exit"] = out["exit"]
     w["requests"] = len(log)
     w["errors_logged"] = out["problems"][:4]
+    if out["pending_sent"]:
+        w["response_pending_replies_read_per_chain"] = out["pending_sent"][:6]
     if out["error"] is not None:
         ctx.case(ident)
         ctx.violation(f"services/raises/{type(out['error']).__name__}", f"the scan ends with an exception: {out['error']!r:.200}", {**w, "log_tail": em.hexlog(log, 12)})
@@ -903,14 +972,23 @@ def check_services(ctx: Any, case: dict[str, Any]) -> None:
             ctx.reach("services.session-refused")
         # a session change that got no answer / no answer to it (the client raises), followed by a later session of the list that was entered
         dsc_replies = [(q[1] & 0x7F, r) for _, q, r, _ in log if len(q) == 2 and q[0] == 0x10 and q[1] != 0]
+        seen_raises = seen_pending = False
         for j, (s, r) in enumerate(dsc_replies):
             cls = reply_class(bytes([0x10, s]), r)
-            if cls in ("silence", "garbled") and s in sessions:
+            if cls in ("silence", "garbled", "nrc-78") and s in sessions and not (seen_pending if cls == "nrc-78" else seen_raises):
                 later_entered = [x for x, r2 in dsc_replies[j + 1 :] if x in sessions[sessions.index(s) + 1 :] and r2 is not None and r2[0] == 0x50]
-                if later_entered:
+                if later_entered and cls == "nrc-78":
+                    # the ECU went on answering responsePending for as long as the tester read (the change was never completed);
+                    # sessions scanned before it / a later session of the list entered after it
+                    seen_pending = True
+                    ctx.reach("services.session-change-pending-for-ever.later-session-entered")
+                    ctx.reach(f"services.session-change-pending-for-ever.later-session-entered.{'back-to-back' if (case.get('pending_interval') or 0) < 0.1 else 'spaced'}")
+                    if any(ok and x in sessions[: sessions.index(s)] for x, ok in asked):
+                        ctx.reach("services.session-change-pending-for-ever.earlier-session-scanned")
+                elif later_entered:
+                    seen_raises = True
                     ctx.reach("services.session-change-raises.later-session-entered")
                     ctx.reach(f"services.session-change-raises.later-session-entered.{cls}")
-                    break
         if any(s in skip and skip[s] is None for s in sessions):
             ctx.reach("services.skip-whole-session")
         entered = [wd.session for wd in wins]
